@@ -132,9 +132,28 @@ def _dump_case(seed):
                     ginfo.gene_regions = {}
             else:
                 ginfo = gi_mod.GeneInfo.from_region("chr1", 1, 2000)
+            before = [(list(m_.exon_blocks), list(getattr(m_, "other_features", []))) for m_ in models]
             pr.dump(ginfo, models)
+            # printing is read-only on the models: the same objects are printed again into the extended annotation
+            for m_, (ex_, of_) in zip(models, before):
+                if list(m_.exon_blocks) != ex_ or list(getattr(m_, "other_features", [])) != of_:
+                    problems.append("dump changed model %s: exons %s -> %s, %d -> %d other features"
+                                    % (m_.transcript_id, ex_, m_.exon_blocks, len(of_), len(getattr(m_, "other_features", []))))
             models_all += models
         pr.out_gff.flush()
+        # the second printing of the same objects (as construct_models_in_parallel does for the extended annotation)
+        pr2 = tp.GFFPrinter(d, "again", idp.FeatureIdStorage(idp.SimpleIDDistributor()), output_r2t=False)
+        pr2.dump(gi_mod.GeneInfo.from_models(models_all, 0), models_all)
+        pr2.out_gff.flush()
+        again = {}
+        for line in open(pr2.model_fname):
+            f = line.rstrip("\n").split("\t")
+            if not line.startswith("#") and f[2] == "exon":
+                tid_ = f[8].split('transcript_id "')[1].split('"')[0]
+                again.setdefault(tid_, []).append((int(f[3]), int(f[4])))
+        for m_ in models_all:
+            if sorted(again.get(m_.transcript_id, [])) != sorted(m_.exon_blocks):
+                problems.append("printed a second time, %s has the exon records %s for the exons %s" % (m_.transcript_id, sorted(again.get(m_.transcript_id, [])), m_.exon_blocks))
         genes, transcripts, exons = {}, {}, {}
         for line in open(pr.model_fname):
             if line.startswith("#"):
